@@ -124,6 +124,19 @@ func cdRoundTrip(num uint16, data []byte) (string, string) {
 		}
 	}
 
+	// ... and through a value that received another message before and is sent on with only its
+	// Number and Data replaced (no Reset: "Length - ignored while encoding, len(Data) is used")
+	for _, earlier := range []int{1, 5, 8, 1200} {
+		if k, m := cdRoundTripPrepared(num, data, func(cd *proto.ChannelData) {
+			in := ref.EncodeChannelData(0x4ABC, bytes.Repeat([]byte{7}, earlier), true)
+			cd.Raw = append([]byte{}, in...)
+			_ = cd.Decode()
+			cd.Number, cd.Data = proto.ChannelNumber(num), data
+		}); k != "" {
+			return k, fmt.Sprintf("%s (value that decoded a %d-byte message before, Number and Data replaced)", m, earlier)
+		}
+	}
+
 	return "", ""
 }
 
